@@ -38,6 +38,10 @@ Proof. exact unpack_spec. Qed.
 Theorem C10_padding : forall p, 1 <= alT p -> data_start p mod alT p = 0 /\ header_padding p < alT p.
 Proof. exact padding_aligns. Qed.
 
+(** what an opened view exposes lies inside the buffer: length-many whole elements starting at the data offset *)
+Theorem C10_visible_in_bounds : forall p buf xs, visible p buf = Ok xs ->
+  exists l cap, unpack p buf = Ok (l, cap) /\ length xs = N.to_nat l /\ data_start p + l * szT p <= len buf.
+Proof. exact visible_in_bounds. Qed.
 Example C10_nonvacuous :
   let p := {| szL := 4; szT := 8; alT := 8; base := 0 |} in
   unpack p ([x02;x00;x00;x00] ++ zeros 4 ++ zeros 16) = Ok (2, 2) /\
